@@ -25,6 +25,7 @@ def run(ctx, sess):
     ctx.rule('C20.2', 'empty operands: the arms for k == 0 only copy the other operand or reset the target; copy transfers every field; reset yields the empty accumulator')
     ctx.rule('C20.4', 'min <= mean <= max needs both extremes set by the first sample: where minimum and maximum start at +/-MAX sentinels, the update of one is not control dependent on the compare with the other (no else-if chain)')
     ctx.rule('C20.5', 'variance is never negative: every value stored as the sum of squared deviations is, by sign analysis of its expression, a sum of squares, counts and non-negative terms (the Welford increment is accepted by a named lemma); no subtraction that could cancel below zero')
+    ctx.rule('C20.6', 'whole-array results agree with incremental ones beyond single precision: the accumulating arithmetic of statistics.c (sums, residuals, squares) is carried out in double - no +, - or * of type float feeds an accumulator')
     ctx.rule('C20.3', 'no division by a count that can be zero')
     f = P.fn('jls_statistics_combine')
     ctx.saw(f)
@@ -143,6 +144,7 @@ def run(ctx, sess):
     ctx.floor('divisions by a count in statistics.c', nd_, 4)
     extremes_rule(ctx, P, 'C20.4', ('src/statistics.c', 'src/reader.c', 'src/wr_fsr.c'))
     variance_sign_rule(ctx, P, 'C20.5')
+    double_arithmetic_rule(ctx, P, 'C20.6')
 
 
 def _fconst(e):
@@ -193,85 +195,86 @@ def extremes_rule(ctx, P, rule, files=('src/statistics.c',)):
     ctx.floor('functions tracking min/max from sentinels', n, 2)
 
 
+def _flatten(e, op):
+    e = strip_casts(e)
+    if e.get('op') == 'bin' and e['o'] == op:
+        return _flatten(e['k'][0], op) + _flatten(e['k'][1], op)
+    return [e]
+
+def nonneg(fn, e, block, idx, depth=0, why=None):
+    from .. import df
+    e = strip_casts(e)
+    if e is None or depth > 8:
+        return False
+    c = const_of(e)
+    if c is not None:
+        return c >= 0
+    if 'f' in e and e.get('op') == 'flit':
+        return e['f'] >= 0
+    op = e.get('op')
+    if op == 'member':
+        return e.get('field') in ('s', 'k') and e.get('rec') == 'jls_statistics_s' or (e.get('t') or '').startswith('u')
+    if op == 'call':
+        return (e.get('callee') or '') in ('fabs', 'sqrt', '__builtin_fabs', '__builtin_sqrt')
+    if op == 'ref':
+        if (e.get('t') or '').startswith('u'):
+            return True
+        if e.get('rk') != 'local':
+            return False
+        defs, entry = df.reaching_defs(fn, e['name'], block, idx)
+        if not defs or entry:
+            return False
+        for d in defs:
+            lhs, rhs, o = d.store_parts()
+            if rhs is None or o not in ('=', '+=', '*=', '/='):
+                return False
+            if not nonneg(fn, rhs, d.block, d.idx, depth + 1, why):
+                return False
+        return True
+    if op == 'bin' and e['o'] == '+':
+        return all(nonneg(fn, k, block, idx, depth + 1, why) for k in _flatten(e, '+'))
+    if op == 'bin' and e['o'] == '/':
+        return nonneg(fn, e['k'][0], block, idx, depth + 1, why) and nonneg(fn, e['k'][1], block, idx, depth + 1, why)
+    if op == 'bin' and e['o'] == '*':
+        fs = _flatten(e, '*')
+        texts = [show(f_) for f_ in fs]
+        rest = []
+        used = [False] * len(fs)
+        for i in range(len(fs)):
+            if used[i]:
+                continue
+            for j in range(i + 1, len(fs)):
+                if not used[j] and texts[i] == texts[j]:
+                    used[i] = used[j] = True
+                    break
+            if not used[i]:
+                rest.append(fs[i])
+        if all(nonneg(fn, f_, block, idx, depth + 1, why) for f_ in rest):
+            return True
+        # lemma W (Welford): (x - m_old) * (x - m_new) with m_new = m_old + (x - m_old) / k, k >= 1: both factors have the same sign
+        if len(fs) == 2 and all(f_.get('op') == 'bin' and f_['o'] == '-' for f_ in fs):
+            x1, a1 = show(strip_casts(fs[0]['k'][0])), strip_casts(fs[0]['k'][1])
+            x2, a2 = show(strip_casts(fs[1]['k'][0])), strip_casts(fs[1]['k'][1])
+            if x1 == x2 and a1.get('op') == 'ref' and a2.get('op') == 'ref':
+                d2 = df.resolve_local(fn, a2, block, idx)
+                d1 = df.resolve_local(fn, a1, block, idx)
+                t2 = show(d2) if d2 is not None else ''
+                t1 = show(d1) if d1 is not None else ''
+                if t1 and t1 in t2 and '/' in t2 and x1 in t2:
+                    if why is not None:
+                        why.add('W')
+                    return True
+        return False
+    if op == 'cond':
+        ks = kids(e)
+        return len(ks) == 3 and nonneg(fn, ks[1], block, idx, depth + 1, why) and nonneg(fn, ks[2], block, idx, depth + 1, why)
+    return False
+
+
+
 def variance_sign_rule(ctx, P, rule):
     """sign analysis: the value stored as the sum of squared deviations is a sum / product of squares and non-negative
     quantities - never the result of a subtraction (which can cancel below zero)"""
-    from .. import df
-
-    def flatten(e, op):
-        e = strip_casts(e)
-        if e.get('op') == 'bin' and e['o'] == op:
-            return flatten(e['k'][0], op) + flatten(e['k'][1], op)
-        return [e]
-
-    def nonneg(fn, e, block, idx, depth=0, why=None):
-        e = strip_casts(e)
-        if e is None or depth > 8:
-            return False
-        c = const_of(e)
-        if c is not None:
-            return c >= 0
-        if 'f' in e and e.get('op') == 'flit':
-            return e['f'] >= 0
-        op = e.get('op')
-        if op == 'member':
-            return e.get('field') in ('s', 'k') and e.get('rec') == 'jls_statistics_s' or (e.get('t') or '').startswith('u')
-        if op == 'call':
-            return (e.get('callee') or '') in ('fabs', 'sqrt', '__builtin_fabs', '__builtin_sqrt')
-        if op == 'ref':
-            if (e.get('t') or '').startswith('u'):
-                return True
-            if e.get('rk') != 'local':
-                return False
-            defs, entry = df.reaching_defs(fn, e['name'], block, idx)
-            if not defs or entry:
-                return False
-            for d in defs:
-                lhs, rhs, o = d.store_parts()
-                if rhs is None or o not in ('=', '+=', '*=', '/='):
-                    return False
-                if not nonneg(fn, rhs, d.block, d.idx, depth + 1, why):
-                    return False
-            return True
-        if op == 'bin' and e['o'] == '+':
-            return all(nonneg(fn, k, block, idx, depth + 1, why) for k in flatten(e, '+'))
-        if op == 'bin' and e['o'] == '/':
-            return nonneg(fn, e['k'][0], block, idx, depth + 1, why) and nonneg(fn, e['k'][1], block, idx, depth + 1, why)
-        if op == 'bin' and e['o'] == '*':
-            fs = flatten(e, '*')
-            texts = [show(f_) for f_ in fs]
-            rest = []
-            used = [False] * len(fs)
-            for i in range(len(fs)):
-                if used[i]:
-                    continue
-                for j in range(i + 1, len(fs)):
-                    if not used[j] and texts[i] == texts[j]:
-                        used[i] = used[j] = True
-                        break
-                if not used[i]:
-                    rest.append(fs[i])
-            if all(nonneg(fn, f_, block, idx, depth + 1, why) for f_ in rest):
-                return True
-            # lemma W (Welford): (x - m_old) * (x - m_new) with m_new = m_old + (x - m_old) / k, k >= 1: both factors have the same sign
-            if len(fs) == 2 and all(f_.get('op') == 'bin' and f_['o'] == '-' for f_ in fs):
-                x1, a1 = show(strip_casts(fs[0]['k'][0])), strip_casts(fs[0]['k'][1])
-                x2, a2 = show(strip_casts(fs[1]['k'][0])), strip_casts(fs[1]['k'][1])
-                if x1 == x2 and a1.get('op') == 'ref' and a2.get('op') == 'ref':
-                    d2 = df.resolve_local(fn, a2, block, idx)
-                    d1 = df.resolve_local(fn, a1, block, idx)
-                    t2 = show(d2) if d2 is not None else ''
-                    t1 = show(d1) if d1 is not None else ''
-                    if t1 and t1 in t2 and '/' in t2 and x1 in t2:
-                        if why is not None:
-                            why.add('W')
-                        return True
-            return False
-        if op == 'cond':
-            ks = kids(e)
-            return len(ks) == 3 and nonneg(fn, ks[1], block, idx, depth + 1, why) and nonneg(fn, ks[2], block, idx, depth + 1, why)
-        return False
-
     n = 0
     lemmas = set()
     for fn in P.fns_in('src/statistics.c'):
@@ -292,3 +295,51 @@ def variance_sign_rule(ctx, P, rule):
     if lemmas:
         ctx.note('%s lemma used: W (Welford increment (x - m_old) * (x - m_new) >= 0)' % rule)
     ctx.floor('stores to the sum of squared deviations', n, 3)
+
+
+
+def variance_locals_rule(ctx, P, rule, files=('src/wr_fsr.c',)):
+    """the writer's reductions build their variances from squared deviations as well"""
+    n = 0
+    for fn in P.all_functions():
+        if fn.file not in files:
+            continue
+        for ev in fn.stores():
+            lhs, rhs, o = ev.store_parts()
+            l0 = strip_casts(lhs)
+            if l0.get('op') != 'ref' or 'var' not in (l0.get('name') or '').lower() or not (l0.get('t') or '').startswith('f') or rhs is None:
+                continue
+            r0 = strip_casts(rhs)
+            if r0.get('fc') == 'nan' or r0.get('m') == 'NAN' or 'nan' in show(r0).lower():
+                continue
+            n += 1
+            ctx.saw(fn, 1)
+            ok = o in ('=', '+=', '/=', '*=') and nonneg(fn, rhs, ev.block, ev.idx, 0, None)
+            ctx.ob(rule, ok, fn.name, 'variance %s %s %s' % (l0['name'], o, show(rhs)[:40]), ev.where(),
+                   'built from squares, counts and non-negative terms only' if ok else
+                   'the variance is formed as a difference (mean of squares minus square of the mean): for data whose mean is large against its spread the two terms cancel and the stored std is noise (or 0 after clamping)')
+    ctx.floor('variance accumulations in the writer', n, 4)
+
+
+
+def double_arithmetic_rule(ctx, P, rule):
+    n = 0
+    for fn in P.fns_in('src/statistics.c'):
+        acc = 0
+        bad = []
+        for ev in fn.events():
+            if ev.k not in ('store', 'decl') or ev.e is None:
+                continue
+            for m in walk(ev.e):
+                if m.get('op') == 'bin' and m['o'] in ('+', '-', '*', '+=', '-=', '*=') and (m.get('t') or '').startswith('f'):
+                    acc += 1
+                    if m.get('t') == 'f32' or m.get('ct') == 'f32':
+                        bad.append((ev, show(m)[:50]))
+        if not acc:
+            continue
+        n += 1
+        ctx.saw(fn, 1)
+        ctx.ob(rule, not bad, fn.name, 'floating arithmetic is double', bad[0][0].where() if bad else fn.where(),
+               '%d operations, all of type double' % acc if not bad else
+               '`%s` is evaluated in single precision: the rounding error of the float operand enters every term of the sum (n x e^2 in the sum of squares), so the result for the whole array differs from adding the samples one at a time by far more than rounding' % bad[0][1])
+    ctx.floor('functions of statistics.c with floating arithmetic', n, 3)
